@@ -231,12 +231,24 @@ func (dec *msgAppV2Decoder) decode() (raftpb.Message, error) {
 			return m, err
 		}
 		l := binary.BigEndian.Uint64(dec.uint64buf)
-		m.Entries = make([]raftpb.Entry, int(l))
+		// the number and the sizes are read from the stream and must not be trusted for allocation:
+		// a corrupted stream would panic in make or allocate without bound.
+		if l > readBytesLimit {
+			return m, ErrExceedSizeLimit
+		}
+		entsCap := l
+		if entsCap > 1024 {
+			entsCap = 1024
+		}
+		m.Entries = make([]raftpb.Entry, 0, int(entsCap))
 		for i := 0; i < int(l); i++ {
 			if _, err := io.ReadFull(dec.r, dec.uint64buf); err != nil {
 				return m, err
 			}
 			size := binary.BigEndian.Uint64(dec.uint64buf)
+			if size > readBytesLimit {
+				return m, ErrExceedSizeLimit
+			}
 			var buf []byte
 			if size <= msgAppV2BufSize {
 				buf = dec.buf[:size]
@@ -251,6 +263,7 @@ func (dec *msgAppV2Decoder) decode() (raftpb.Message, error) {
 			}
 			dec.index++
 			// 1 alloc
+			m.Entries = append(m.Entries, raftpb.Entry{})
 			err := pbutil.MaybeUnmarshal(&m.Entries[i], buf)
 			if err != nil {
 				return m, err
@@ -265,6 +278,9 @@ func (dec *msgAppV2Decoder) decode() (raftpb.Message, error) {
 		var size uint64
 		if err := binary.Read(dec.r, binary.BigEndian, &size); err != nil {
 			return m, err
+		}
+		if size > readBytesLimit {
+			return m, ErrExceedSizeLimit
 		}
 		var buf []byte
 		if size <= msgAppV2BufSize {
